@@ -46,9 +46,16 @@ func mergedEnumerate(ctx context.Context, dest chan<- blob.SizedRef, nsrc int, g
 	defer cancel()
 
 	errch := make(chan error, nsrc+1) // +1 for nil
-	startEnum := func(source BlobEnumerator) *blob.ChanPeeker {
+	// returned[i] is closed once source i has returned (and its error,
+	// if any, is in errch). A source closes its channel before it
+	// returns, so a closed channel alone does not tell whether the
+	// source enumerated everything or failed.
+	returned := make([]chan struct{}, nsrc)
+	startEnum := func(i int, source BlobEnumerator) *blob.ChanPeeker {
 		ch := make(chan blob.SizedRef, buffered)
+		returned[i] = make(chan struct{})
 		go func() {
+			defer close(returned[i])
 			err := source.EnumerateBlobs(subctx, ch, after, limit)
 			if err != nil {
 				errch <- err
@@ -59,7 +66,7 @@ func mergedEnumerate(ctx context.Context, dest chan<- blob.SizedRef, nsrc int, g
 
 	peekers := make([]*blob.ChanPeeker, 0, nsrc)
 	for i := range nsrc {
-		peekers = append(peekers, startEnum(getSource(i)))
+		peekers = append(peekers, startEnum(i, getSource(i)))
 	}
 
 	nSent := 0
@@ -73,6 +80,14 @@ func mergedEnumerate(ctx context.Context, dest chan<- blob.SizedRef, nsrc int, g
 				peeker.Take()
 			}
 			if peeker.Closed() {
+				// Its channel is closed: wait for the source to
+				// return, so that its error is not missed.
+				<-returned[idx]
+				select {
+				case err := <-errch:
+					return err
+				default:
+				}
 				continue
 			}
 			sb := peeker.MustPeek() // can't be nil if not Closed
